@@ -393,3 +393,17 @@ package common
 // ZigZagJoin reports through callbacks only: assumed here (its effect at a call site is what the callbacks assign)
 //@ func (vs ValidatorSet) ZigZagJoin(target, onIn, onOut)
 //@   trusted
+
+// ---------------------------------------------------------------- cancellation surfaces as an error (C18)
+// Pattern for every (sub-)transition that takes a context:
+//   cancelled: a context cancelled before the call makes the call fail (a poll happens on every path to success);
+//   surfaced:  a cancellation observed by any poll during the call makes the call fail;
+//   time:      logical poll time never runs backwards.
+//@ func ProcessSlot(ctx, spec, state) err
+//@   property C18
+//@   panics off
+//@   requires ctx != nil && state != nil
+//@   assigns anything, ghost(ctx_t), ghost(ctx_seen)
+//@   ensures cancelled: ctx_cancelled(ctx, old(ctx_t)) ==> err != nil
+//@   ensures surfaced: !old(ctx_seen) && ctx_seen ==> err != nil
+//@   ensures time: ctx_t >= old(ctx_t)
